@@ -93,7 +93,8 @@ PROPS["C11"] = {
 
 PROPS["C12"] = {
     "title": "Histogram buckets partition the results",
-    "units": [{"name": "hist", "pkg": "lib", "run": "^TestC12"}],
+    "units": [{"name": "hist", "pkg": "lib", "run": "^TestC12"},
+              {"name": "reportcmd", "pkg": "main", "run": "^TestC12", "shards_quick": 2, "shards_thorough": 8}],
     "rule": "rapid draws 1..20 strictly increasing bounds (ns..hours, adjacent bounds 1 ns apart included, first bound "
             "0 or positive) and latencies exactly on, one below and one above every bound plus random ones and MaxInt64; "
             "textual specifications '[b1,b2,...]' with arbitrary inner spacing, every unit, decimal fractions and "
